@@ -94,7 +94,10 @@ def _alternatives(body):
 
 
 SYMBOL_TYPES = {'@L': "usize", '@R': "usize", '"IntLit"': "&'input str", '"StrLit"': "&'input str",
-                '"CharLit"': "&'input str", '"FloatLit"': "&'input str"}
+                '"CharLit"': "&'input str", '"FloatLit"': "&'input str",
+                # a literal rule may also be written over the `Integer` nonterminal (its value is then
+                # produced by running the extracted Integer action on the same token text)
+                'Integer': "IntegerLiteral"}
 
 
 def _action_fn(fn_name, ret_ty, alt):
@@ -143,7 +146,7 @@ def gen_surface_actions(ws, gen_dir):
         ret_ty, body = _rule(text, rule)
         alts = _alternatives(body)
         if pick:
-            alts = [a for a in alts if pick in a.split("=>")[0]]
+            alts = [a for a in alts if pick in a.split("=>")[0] or re.search(r"<\s*(\w+\s*:\s*)?Integer\s*>", a.split("=>")[0])]
         if len(alts) != 1:
             raise Drift(f"parser.lalrpop: expected exactly one alternative for `{rule}`{' with ' + pick if pick else ''}, found {len(alts)}")
         src, params, fallible, action = _action_fn(fn, ret_ty, alts[0])
@@ -163,6 +166,8 @@ def gen_surface_actions(ws, gen_dir):
             if ty == "usize":
                 args.append("0" if seen_pos == 0 else "text.len()")
                 seen_pos += 1
+            elif ty == "IntegerLiteral":
+                args.append("call_action_integer(text)?")
             else:
                 args.append("text")
         out.append(f"fn call_{fn}<'input>(text: &'input str) -> Result<{ret}, "
